@@ -12,7 +12,8 @@
      - window: (sum of RequestChunks.maxChunks) never exceeds (number of IsProcessed = true
        answers) + ParallelChunksDownload;
      - no RequestChunks in a routine run whose Suspend() returned true;
-     - no callback at all after a Done() = true. *)
+     - after a Done() = true nothing is called any more, except that Done() may be polled again
+       (and answers true: the application's Done() is monotone). *)
 From Coq Require Import NArith List Bool.
 From LV Require Import model.Leecher.
 Import ListNotations.
@@ -83,7 +84,7 @@ Record pmon := mkPM {
 Definition pmon_init : pmon := mkPM 0 0 false false.
 
 Definition pmon_ev (par : N) (m : pmon) (e : pev) : option pmon :=
-  if w_fin m then None
+  if w_fin m then match e with PDone true => Some m | _ => None end
   else match e with
        | PDone b => Some (mkPM (w_req m) (w_proc m) false b)
        | PIsProc _ b => Some (mkPM (w_req m) (if b then w_proc m + 1 else w_proc m)%N (w_susp m) false)
